@@ -47,7 +47,7 @@ var c07Alts = func() []c07Alt {
 }()
 
 var (
-	c07Locals  = []string{"none", "match-recvonly", "match-sendrecv", "other-kind"}
+	c07Locals  = []string{"none", "match-recvonly", "match-sendrecv", "other-kind", "abandoned-offer"}
 	c07Engines = []string{"default", "audio-only"}
 )
 
@@ -315,6 +315,16 @@ func c07Setup(t *testing.T, pc *PeerConnection, cs c07Case) bool {
 			if have[k] == 0 {
 				add(k, RTPTransceiverDirectionRecvonly)
 			}
+		}
+	case "abandoned-offer":
+		// a video and an audio transceiver that got the provisional mids 0 and 1 from a CreateOffer whose
+		// offer is never applied (glare: the remote offer is applied first); the offers use the mids 2,0,1
+		if cs.Engine != "audio-only" {
+			add("video", RTPTransceiverDirectionRecvonly)
+		}
+		add("audio", RTPTransceiverDirectionRecvonly)
+		if _, err := pc.CreateOffer(nil); err != nil {
+			panic(fmt.Sprintf("harness: CreateOffer: %v", err))
 		}
 	}
 
